@@ -243,3 +243,36 @@ PROPS["C15"] = {
         {"pkg": HQ, "func": "VerifH_C15_producer", "replay_tries": 2, "covers": ["hq-failed-first", "timer-flush", "outlink-arrives-during-retry", "stopped"]},
     ],
 }
+
+PP = "internal/pkg/postprocessor"
+EXT = Z + "/internal/pkg/postprocessor/extractor."
+SS = Z + "/internal/pkg/postprocessor/sitespecific/"
+VM = Z + "/internal/verifmodel."
+POSTPROC_MODELS = dict(DEFAULT_MODELS)
+POSTPROC_MODELS.update({
+    EXT + "IsHTML": VM + "IsHTML", EXT + "IsJSON": VM + "IsJSON", EXT + "IsXML": VM + "IsXML", EXT + "IsM3U8": VM + "IsM3U8",
+    EXT + "IsS3": VM + "IsS3", EXT + "IsSitemapXML": VM + "IsSitemap", EXT + "IsPDF": VM + "IsPDF",
+    EXT + "M3U8": VM + "AssetsOnlyURL", EXT + "JSON": VM + "AssetsAndOutlinks", EXT + "XML": VM + "AssetsAndOutlinks",
+    EXT + "HTMLAssets": VM + "AssetsOnlyItem", EXT + "HTMLOutlinks": VM + "OutlinksOnlyItem", EXT + "S3": VM + "OutlinksOnlyURL", EXT + "PDF": VM + "OutlinksOnlyURL",
+    EXT + "ExtractURLsFromHeader": VM + "HeaderURLs",
+    Z + "/internal/pkg/postprocessor.extractLinksFromPage": VM + "NoLinks",
+    SS + "ina.IsAPIURL": VM + "False", SS + "truthsocial.NeedExtraction": VM + "False", SS + "truthsocial.IsAccountURL": VM + "False",
+    SS + "truthsocial.IsAccountLookupURL": VM + "False", SS + "reddit.IsRedditURL": VM + "False", SS + "reddit.IsPostAPI": VM + "False",
+    Z + "/internal/pkg/postprocessor/domainscrawl.Match": VM + "DomainsMatch",
+    "(*github.com/gabriel-vasile/mimetype.MIME).String": VM + "MIMEString", "(*github.com/gabriel-vasile/mimetype.MIME).Is": VM + "MIMEIs",
+    Z + "/pkg/models.URLToString": VM + "URLToString",
+})
+PROPS["C06"] = {
+    "level": "model_checking",
+    "explanation": "one real post-processing step (postprocessItem with extractAssets/extractOutlinks tails, shouldExtract*, GetDepthWithoutRedirections, AddChild) from an archived item at an arbitrary tree position "
+                   "(symbolic chain of redirect/asset edges up to depth 4), for symbolic redirect/hop counters and limits, every response class and every extractor outcome; the retry loop of archive() is covered by C02. "
+                   "Inductive reading: the redirect counter strictly increases along a chain and is capped, asset depth is capped, so the number of passes per seed is bounded.",
+    "bounds": "tree position: chains of <=4 edges; max-redirect 0..3, redirects 0..3, max-hops 0..2, hops 0..2; 8 status codes; 5 document kinds; <=2 assets and <=2 outlinks per document; asset capture on/off; domains-crawl on/off",
+    "outside": "what the extractors find in real documents (modelled: they return the harness's URL lists or fail); domains-crawl pattern matching (modelled as an arbitrary predicate); the archiver's retry loop (see C02)",
+    "assumptions": COMMON_ASSUME + ["extractor.* return arbitrary URL lists or an error; sitespecific predicates are false; models.URLToString returns scheme://host/path for the harness's plain URLs; uuid.New().String() yields distinct ids"],
+    "models": POSTPROC_MODELS,
+    "harnesses": [
+        {"pkg": PP, "func": "VerifH_C06_postprocess", "opts": {"map_order_all": False},
+         "covers": ["redirect-limit-reached", "redirect-followed", "asset-depth-limit", "asset-added", "outlink-queued", "outlink-domains-crawl"]},
+    ],
+}
